@@ -293,6 +293,8 @@ STRUCT_TRANSFORMS = [
     ("rotated-one-byte", lambda b, o: b[1:] + b[:1]),
     ("complemented", lambda b, o: bytes(x ^ 0xFF for x in b)),
     ("halves-swapped", lambda b, o: b[len(b) // 2:] + b[:len(b) // 2]),
+    ("most-significant-byte-changed", lambda b, o: b[:-1] + bytes([b[-1] ^ 0x5a])),
+    ("least-significant-byte-changed", lambda b, o: bytes([b[0] ^ 0xa5]) + b[1:]),
     ("all-zero", lambda b, o: bytes(len(b))),
     ("all-ff", lambda b, o: b"\xff" * len(b)),
     ("equal-to-another-argument", lambda b, o: o),
